@@ -29,7 +29,21 @@ BUDGETS = {"quick": (60000, 90), "thorough": (3000000, 285)}
 
 
 def gen(seed, tier="quick"):
-    return G.gen_retry(seed, KNOBS)
+    import random
+    scn = G.gen_retry(seed, KNOBS)
+    r = random.Random(seed ^ 0xC04)
+    if scn["mode"] == "async" and len(scn["calls"]) > 1 and scn["entry"] != "decorator" and r.random() < 0.6:
+        # overlapping calls on one policy object -- and, for the context-manager entries, through ONE bound context
+        # object: every call must still get its own operation's result / exception
+        scn["concurrent"] = True
+        scn["shared_context"] = True
+        for c in scn["calls"]:
+            c.pop("before", None)
+            c["start_us"] = r.choice([0, 0, 1000, 250_000])
+            for st in c["attempts"]:
+                if st.get("dur", 0) == 0:
+                    st["dur"] = r.choice([0, 1000, 250_000, 500_000])
+    return scn
 
 
 def oracle(scn, trace):
@@ -41,6 +55,10 @@ def oracle(scn, trace):
             continue
         inf = infos[-1]
         a = inf.a
+        strays = [e for e in cf.events if e["ev"] == "OP_BEGIN" and e.get("wrong_owner") is not None]
+        if strays:
+            out.append(V("R1", "an attempt of this call invoked another call's operation", {"call": cid, "attempt": strays[0]["k"], "operation_of_call": strays[0]["wrong_owner"], "entry": ent}))
+            continue
         if a.kind == "ok":
             if end["how"] != "return" or end.get("value") != a.obj:
                 out.append(V("R1", "call() did not return the successful attempt's own object",
